@@ -7,7 +7,7 @@ from ..consteval import Evaluator, NotConst
 from ..liftforms import LifterModel
 from ..lifter import LiftError, Term, walk_terms, get_size
 from ..shapes import u
-from ..srcmodel import walk_no_nested
+from ..srcmodel import walk_no_nested, parent
 from . import c10_common
 from ..linarith import lin, lin_add, show, straightline
 
@@ -399,6 +399,7 @@ def run(ctx, report):
     # eval_ExprCompose, evaluated on compositions of constant pieces with at most one conditional piece (every position of the
     # conditional piece, constant slices included): the folded value must be the concatenation of the pieces
     compose_fold_rule(R6, ea, ec)
+    mem_read_fold_rule(R6, ea, methods)
 
     # ---------------------------------------------------------------- D7 writer's and reader's key of a memory cell agree
     R7 = report.rule('C06.D7', 'memory cells are stored under the (simplified) address they are looked up with', floor=2)
@@ -912,7 +913,81 @@ def compose_fold_rule(R, ea, ec):
                         where(ea, ec), witness="setz al with eax = 0x12345678: eax evaluates to zf?(0x1,0x0)" if 'cond lowest' in label else None)
 
 
+def mem_read_fold_rule(R, ea, methods):
+    """A memory read assembled from pieces of stored cells (eval_ExprMem) is a constant when every piece is one: the assembled
+    composition must go through a helper that folds integer pieces and slices of integers (no ExprInt exists for a 24-bit remainder),
+    and that helper is evaluated on such pieces."""
+    from ..consteval import Evaluator as _Ev, NotConst as _NC, Obj as _Obj, Native as _Nat, PyRaise as _PR
+    em = methods.get('eval_ExprMem')
+    if em is None:
+        raise AnalysisError('eval_abs.eval_ExprMem not found')
+    asm = None
+    for n in walk_no_nested(em):
+        if isinstance(n, ast.Assign) and isinstance(n.value, ast.Call) and u(n.value.func) == 'ExprSlice' and n.value.args and u(n.value.args[0]).startswith('ExprCompose('):
+            asm = n
+    if asm is None:
+        raise AnalysisError('eval_ExprMem: the assembly of an overlapping read (ExprSlice(ExprCompose(pieces), ..)) was not found')
+    pieces_name = u(asm.value.args[0].args[0]) if isinstance(asm.value.args[0], ast.Call) and asm.value.args[0].args else None
+    blk = parent(asm).body
+    idx = blk.index(asm)
+    helper = None
+    for st in blk[:idx]:
+        if isinstance(st, ast.Assign) and isinstance(st.value, ast.Call) and isinstance(st.value.func, ast.Attribute) and u(st.value.func.value) == 'self' \
+                and st.value.func.attr in methods and st.value.args and u(st.value.args[0]) == pieces_name:
+            tgt = u(st.targets[0])
+            guard = [g for g in blk[blk.index(st):idx] if isinstance(g, ast.If) and u(g.test).replace(' ', '') == '%sisnotNone' % tgt
+                     and any(isinstance(x, ast.Return) and u(x.value) == tgt for x in g.body)]
+            if guard:
+                helper = methods[st.value.func.attr]
+    inst = 'eval_ExprMem:assembled-read'
+    if helper is None:
+        R.violation(inst, 'mem-read-fold:none', 'eval_ExprMem returns the composition of the pieces of an overlapping read without folding constant pieces: a 32-bit read over a byte store and '
+                    'the 24-bit remainder of a constant cell stays (0x6B,0,8, 0x0[8:32],8,32), and arithmetic on it is not computed', where(ea, asm),
+                    witness='add BYTE PTR [esi], cl; imul edx, DWORD PTR [esi] with constant memory')
+        return
+
+    def mk(kind, **kw):
+        o = _Obj(kind)
+        o.__dict__['_kind'] = kind
+        for k, v in kw.items():
+            setattr(o, k, v)
+        return o
+
+    class Kind(_Nat):
+        def __init__(self, k, fn):
+            _Nat.__init__(self, fn)
+            self.k = k
+
+    def isinst(o, k):
+        k = k.k if isinstance(k, Kind) else k
+        return isinstance(o, _Obj) and o.__dict__.get('_kind') == k
+    env = {'isinstance': _Nat(isinst), 'ExprInt': Kind('ExprInt', lambda v: mk('ExprInt', arg=v)),
+           'ExprSlice': Kind('ExprSlice', lambda a, s_, e_: mk('ExprSlice', arg=a, start=s_, stop=e_)),
+           'tab_uintsize': dict((n, _Nat(lambda v, n=n: v & ((1 << n) - 1))) for n in (1, 8, 16, 32, 64)), 'int': _Nat(int)}
+    const = lambda v: mk('ExprInt', arg=v)
+    cslice = lambda v, a, b: mk('ExprSlice', arg=const(v), start=a, stop=b)
+    cases = [('byte over a constant cell', [(const(0x6B), 0, 8), (cslice(0x11223344, 8, 32), 8, 32)], 32, 0x1122336B),
+             ('misaligned read over two cells', [(cslice(0xAABBCCDD, 24, 32), 0, 8), (cslice(0x11223344, 0, 24), 8, 32)], 32, 0x223344AA),
+             ('a symbolic piece', [(const(0x6B), 0, 8), (mk('ExprId', name='x'), 8, 32)], 32, None)]
+    me = _Obj('self')
+    me.__dict__['_methods'] = dict(methods)
+    for label, pieces, size, want in cases:
+        try:
+            r = _Ev(env).call_user(helper, [me, pieces, size])
+        except _NC as ex:
+            raise AnalysisError('%s is outside the statically evaluable subset (%s): %s' % (helper.name, label, ex))
+        got = r.arg if isinst(r, 'ExprInt') else (None if r is None else 'non-constant')
+        i2 = '%s[%s]' % (helper.name, label)
+        if got == want:
+            R.ok(i2, sample='%s: %s -> %s' % (helper.name, label, hex(got) if isinstance(got, int) else got))
+        else:
+            R.violation(i2, 'mem-read-fold:%s' % label, '%s gives %s for %s, the concatenation of the pieces is %s' % (helper.name, hex(got) if isinstance(got, int) else got, label,
+                                                                                                              hex(want) if want is not None else 'not a constant'), where(ea, helper))
+
+
 MUTANTS = [
+    ('mem-read-not-folded', 'miasmx/expression/expression_eval_abstract.py', "                    if ee is not None:\n                        # every piece is a constant: so is the cell\n                        return ee\n", "", 'C06.D6'),
+    ('const-compose-no-slice-shift', 'miasmx/expression/expression_eval_abstract.py', "                v = int(x.arg.arg) >> x.start\n", "                v = int(x.arg.arg)\n", 'C06.D6'),
     ('idiv-floor', 'miasmx/expression/expression_eval_abstract.py', "        q = abs(big) // abs(c)\n        if (big < 0) != (c < 0):\n            q = -q\n", "        q = big // c\n", 'C06.D5'),
     ('div-no-overflow-check', 'miasmx/expression/expression_eval_abstract.py', "        ret_value = ((hi << op_size) + lo) // c\n        if ret_value > mymaxuint[op_size]:\n            raise ValueError('Divide Error')\n", "        ret_value = ((hi << op_size) + lo) // c\n", 'C06.D5'),
     ('imulhi-unsigned', 'miasmx/expression/expression_eval_abstract.py', "'imul16_hi':eval_op_imulhi, 'imul32_hi':eval_op_imulhi,", "'imul16_hi':eval_op_mulhi, 'imul32_hi':eval_op_mulhi,", 'C06.D5'),
@@ -922,7 +997,7 @@ MUTANTS = [
     ('compose-no-const-slice', 'miasmx/expression/expression_eval_abstract.py', "            if isinstance(x, ExprSlice) and isinstance(x.arg, ExprInt):\n                return (int(x.arg.arg) >> x.start) & ((1<<(x.stop-x.start))-1)\n", "", 'C06.D6'),
     ('nocheck-misspelt', 'miasmx/expression/expression_eval_abstract.py', "    op_size_no_check = ['<<<', '>>>', 'a>>', '>>', '<<',", "    op_size_no_check = ['<<<', '>>>', 'a<<', '>>', '<<',", 'C06.D1'),
     ('rcl-narrow-shift', 'miasmx/expression/expression_eval_abstract.py', "        r = int(r)\n        tmpa = (int(args[0])<<1) | (int(args[2])&1)\n        rez = (tmpa<<r) | (tmpa >> (op_size+1-r))", "        r = int(r)\n        tmpa = int(args[0]<<1) | (int(args[2])&1)\n        rez = (tmpa<<r) | (tmpa >> (op_size+1-r))", 'C06.D5'),
-    ('rol-of-fullwidth', 'miasmx/arch/ia32_sem.py', "    e.append(ExprAff(of, ExprOp(\"^\", get_op_msb(c), new_cf[0:1])))\n    e.append(ExprAff(a, c))\n    return e\n\ndef l_ror", "    e.append(ExprAff(of, ExprOp(\"^\", get_op_msb(c), new_cf)))\n    e.append(ExprAff(a, c))\n    return e\n\ndef l_ror", 'C06.D1'),
+    ('rol-of-fullwidth', 'miasmx/arch/ia32_sem.py', "    f.append(ExprAff(of, ExprOp(\"^\", get_op_msb(c), new_cf[0:1])))\n    e += unless_count_0(shifter, f)\n    e.append(ExprAff(a, c))\n    return e\n\ndef l_ror", "    f.append(ExprAff(of, ExprOp(\"^\", get_op_msb(c), new_cf)))\n    e += unless_count_0(shifter, f)\n    e.append(ExprAff(a, c))\n    return e\n\ndef l_ror", 'C06.D1'),
     ('no-xor', 'miasmx/expression/expression_eval_abstract.py', "               '^':eval_op_xor,\n", "", 'C06.D'),
     ('minus-noarity', 'miasmx/expression/expression_eval_abstract.py',
      "        if len(args) == 2:\n            ret_value = args[0] - args[1]\n        elif len(args) == 1:\n            ret_value = -args[0]\n        else:\n            raise ValueError('deprecated n aire arguments for op -')\n",
